@@ -38,6 +38,7 @@
 #include <unifex/upon_error.hpp>
 #include <unifex/via.hpp>
 #include <unifex/when_all.hpp>
+#include <unifex/when_all_range.hpp>
 #include <unifex/when_any.hpp>
 #include <unifex/with_allocator.hpp>
 #include <unifex/with_query_value.hpp>
@@ -138,12 +139,14 @@ inline void flat1(Payload& out, const Val& v) { out.insert(out.end(), v.p.begin(
 inline void flat1(Payload& out, const std::exception_ptr& e) {
   try { std::rethrow_exception(e); } catch (Tagged& t) { out.insert(out.end(), t.p.begin(), t.p.end()); } catch (...) { out.push_back(-999); }
 }
+template <class T> void flat1(Payload& out, const std::vector<T>& v);
 template <class... Ts> void flat1(Payload& out, const std::tuple<Ts...>& t);
 template <class... Ts> void flat1(Payload& out, const std::variant<Ts...>& v);
 template <class T> void flat1(Payload& out, const std::optional<T>& o);
 template <class... Ts> void flat1(Payload& out, const std::tuple<Ts...>& t) { std::apply([&](auto const&... x) { (flat1(out, x), ...); }, t); }
 template <class... Ts> void flat1(Payload& out, const std::variant<Ts...>& v) { std::visit([&](auto const& x) { flat1(out, x); }, v); }
 template <class T> void flat1(Payload& out, const std::optional<T>& o) { if (o) flat1(out, *o); else out.push_back(0); }
+template <class T> void flat1(Payload& out, const std::vector<T>& v) { for (auto& x : v) flat1(out, x); }
 inline void flat1(Payload& out, const std::optional<std::monostate>& o) { if (!o) out.push_back(0); }
 inline void flat1(Payload&, const std::monostate&) {}
 template <class... A> Payload flat(const A&... a) { Payload p; (flat1(p, a), ...); return p; }
